@@ -27,6 +27,33 @@ def histDates : List Op := [
   { kind := .createP { timestamp := some 1000 } [⟨"world", "fees", 0, "USD"⟩] false, now := 10 },
   { kind := .saveAccMeta "fees" [("role", "x")], now := 20 } ]
 
+/-- Witness 3 (restamped `updated_at`): a metadata save creates `fees` at 10, a
+    metadata delete at 20 stamps `updated_at = 20`; the replay stamps its own clock. -/
+def histRestamp : List Op := [
+  { kind := .saveAccMeta "fees" [("role", "x")], now := 10 },
+  { kind := .delAccMeta "fees" "role", now := 20 } ]
+
+/-- Witness 4 (locked zero row): a script `send [USD 5] (source = {@world @bank} …)`
+    whose runtime locks the balance of `bank` (`GetBalances` inserts the `(0,0)` row
+    `bank/USD`) but takes everything from `world`: the live ledger keeps the zero row. -/
+def histLocked : List Op := [
+  { kind := .createS {} [{ postings := [⟨"world", "users:1", 5, "USD"⟩], calls := [.balances [("bank", "USD")]] }],
+    now := 10 } ]
+
+/-- A history with every kind of write and none of the four divergences. -/
+def histSafe : List Op := [
+  { kind := .insertSchema "v1" (some ("{}", [("users:001", [("role", "user")]), ("world", []), ("bank", [])])) [] false, now := 5 },
+  { kind := .createP {} [⟨"world", "bank", 100, "USD"⟩] false, now := 10, sv := "v1" },
+  { kind := .createS { reference := "r" } [{ postings := [⟨"bank", "users:001", 40, "USD"⟩], calls := [.balances [("bank", "USD")]], accountMeta := [("users:001", [("k", "v")])] }],
+    now := 20, sv := "v1", ik := "i1", ihash := "h" },
+  { kind := .revert 2 false false [], now := 30, sv := "v1" },
+  { kind := .saveTxMeta 1 [("a", "b")], now := 40, sv := "v1" },
+  { kind := .saveAccMeta "bank" [("role", "x")], now := 50, sv := "v1" },
+  { kind := .saveAccMeta "fees" [("role", "y")], now := 55 },
+  { kind := .delTxMeta 1 "a", now := 60, sv := "v1" },
+  { kind := .delAccMeta "nobody" "k", now := 70, sv := "v1" },
+  { kind := .createP {} [⟨"bank", "users:001", 1000, "USD"⟩] false, now := 80, sv := "v1" } ]
+
 /-- Export the journal of `s`, import it into an empty ledger. -/
 def replay (s : State) : State × Option ImportErr := importLogs 0 {} (exportLogs s)
 
